@@ -453,23 +453,18 @@ impl AppConfig {
                     (self.replication.factor as usize).min(node_count);
                 let mut assigned = HashSet::new();
 
-                let buckets_per_node = self.bucket.count as usize / node_count;
-                let extra_buckets = self.bucket.count as usize % node_count;
-
-                // For each replica position this node participates in
-                for replica_offset in 0..effective_replication_factor {
-                    // Which node position are we a replica for?
-                    let primary_node =
-                        (self.node.index as usize + node_count - replica_offset) % node_count;
-
-                    // Calculate that node's bucket range
-                    let start = primary_node * buckets_per_node + primary_node.min(extra_buckets);
-                    let extra = if primary_node < extra_buckets { 1 } else { 0 };
-                    let count = buckets_per_node + extra;
-
-                    // Add all buckets in that range
-                    for bucket_id in start..(start + count) {
-                        assigned.insert(bucket_id.try_into().unwrap());
+                // A bucket's primary node is `bucket_id % node_count` and its replicas are the
+                // following nodes on the ring. This must be the same rule the cluster topology
+                // (sierradb-topology) uses to route partitions, otherwise a node is sent
+                // reads/writes for buckets it never opened.
+                for bucket_id in 0..self.bucket.count {
+                    let primary_node = bucket_id as usize % node_count;
+                    for replica_offset in 0..effective_replication_factor {
+                        if (primary_node + replica_offset) % node_count == self.node.index as usize
+                        {
+                            assigned.insert(bucket_id);
+                            break;
+                        }
                     }
                 }
 
